@@ -35,7 +35,9 @@ type C14Case struct {
 var c14Places = []string{"text", "literal", "string", "string-esc", "mapkey", "css", "msgtext", "global", "param-content", "switch-case", "mapvalue", "listitem"}
 
 var c14Pieces = []string{"'", "\"", "\\", "\n", "\r", "\t", "\u2028", "\u2029", "</script>", "<!--", "]]>", "𝄞", "\U0010FFFF", "\U000E0001", "é", "日本", "a", "b", " ", "0", "=", "&", "<", ">", "/", "`", "${x}", "\x00", "\x01", "\x1f", "\x7f", "\u0085", " ", "\ufeff", "\\n", "\\u0041", "'+alert(1)+'", "*/", "/*", "//", "{", "}", ";", ":", ",", "-->", "\v", "\f", "\b", "%", "$", "#",
-	"1a", "010", "1e1", "0x10", "00", "1", "-1", "1.5", "class", "default", "function", "constructor", "toString", "hasOwnProperty", "__proto__", "prototype", "length", "a-b", "a.b", "\u00e9", "é"}
+	"1a", "010", "1e1", "0x10", "00", "1", "-1", "1.5", "class", "default", "function", "constructor", "toString", "hasOwnProperty", "__proto__", "prototype", "length", "a-b", "a.b", "\u00e9", "é",
+	// a literal backslash followed by text that looks like an escape sequence of the generated code
+	`\u000A`, `\u000D`, `\u0009`, `\u003C`, `\u0022`, `\u0027`, `\u2028`, `\x3C`, `\r`, `\t`, `\'`, `\"`, `\\`, `\0`, `\u10FFFF`, `\uD834\uDD1E`}
 
 func genC14(t *rapid.T) C14Case {
 	c := C14Case{Namespace: rapid.SampledFrom([]string{"a", "a.b", "a.b.c", "ns1.sub_2.x.y", "soyapp.views"}).Draw(t, "ns"), TwoFiles: rapid.Bool().Draw(t, "twoFiles")}
